@@ -297,6 +297,8 @@ pub fn check_session(ctx: &Ctx, s: &Session, info: &mut CaseInfo) -> Outcome {
     let mut raised = false;
     let mut cleared = false;
     let mut last_nonempty = [false; 3];
+    // undeclared-fixture findings expected (and confirmed) at the last VALID version of each document
+    let mut last_valid_undeclared: [Option<Vec<Value>>; 3] = [None, None, None];
     let invalid_entry = matches!(&s.conf, Conf::Valid { unknown, excludes, .. } if *unknown != 0 || excludes.iter().any(|e| e % 4 >= 2)) || matches!(s.conf, Conf::Malformed(..));
     // every document is first opened with its on-disk (valid) text, outermost first, so that all
     // later findings stem from editor analyses in a known order (what the parallel scan flagged as
@@ -377,7 +379,26 @@ pub fn check_session(ctx: &Ctx, s: &Session, info: &mut CaseInfo) -> Outcome {
             cleared = true;
         }
         last_nonempty[l] = !exp.is_empty();
-        if got_n != exp {
+        let is_undeclared = |v: &Value| v.get(0).and_then(|c| c.as_str()) == Some("undeclared-fixture");
+        // An unparsable version has no findings of its own: the server documents that it keeps the
+        // data of the last valid analysis. Undeclared-fixture findings are computed at analysis time,
+        // so for an unparsable version both readings of "the last valid analysis" are accepted: as it
+        // would come out now (exp) and as it came out when that version was analysed (alt).
+        let alt: Option<Vec<Value>> = if dv.broken {
+            last_valid_undeclared[l].as_ref().map(|u| {
+                let mut v: Vec<Value> = exp.iter().filter(|d| !is_undeclared(d)).cloned().collect();
+                v.extend(u.iter().cloned());
+                v.sort_by_key(|x| x.to_string());
+                v
+            })
+        } else {
+            last_valid_undeclared[l] = Some(exp.iter().filter(|d| is_undeclared(d)).cloned().collect());
+            None
+        };
+        if dv.broken {
+            info.classes.push(if alt.as_ref().map(|a| *a != exp).unwrap_or(false) { "broken step: two admissible undeclared sets".into() } else { "broken step: one admissible set".into() });
+        }
+        if got_n != exp && alt.as_ref().map(|a| got_n != *a).unwrap_or(true) {
             return Outcome::Fail(format!(
                 "step {} ({} of {}): published diagnostics differ from the findings for the latest content (disabled: {:?}, config: {:?})\n published: {}\n expected:  {}\n--- text ---\n{}",
                 k,
